@@ -154,13 +154,13 @@ theorem stackFill_rel_left {s1 s2 : St} (h : StSim s1 s2) : StSim (stackFill s1)
 
 theorem getPragma_rel (o : Opts) {s1 s2 : St} (h : StSim s1 s2) :
     (getPragma o s1).1 = (getPragma o s2).1 ∧ StSim (getPragma o s1).2 (getPragma o s2).2 := by
-  unfold getPragma
+  unfold getPragma effPragma
   rw [h.fields.2.2.1]
   split
-  · exact ⟨rfl, h⟩
   · split
     · exact ⟨rfl, h⟩
-    · exact h.importFromVue _
+    · exact (h.err _).importFromVue _
+  · exact h.importFromVue _
 
 theorem StSim.pushConst {s1 s2 : St} (h : StSim s1 s2) {d1 d2 : Node} (hd : HintRel d1 d2) :
     StSim { s1 with injectingConsts := s1.injectingConsts ++ [d1] } { s2 with injectingConsts := s2.injectingConsts ++ [d2] } := by
@@ -218,7 +218,7 @@ def iifeStep (left : Node) (acc : List Node × St) (elem : Node) : List Node × 
   let (out, st) := acc
   match elem with
   | .mk .arg _ [.mk .ident (n :: b :: r) ks] =>
-    if n == identName left then
+    if n == identName left && b == identBind left then
       let (name, st) := st.fresh ("_" ++ n)
       let init := nCall (nFnExpr [] [nReturn (.mk .ident (n :: b :: r) ks)]) []
       (out ++ [nArg name], { st with injectingConsts := st.injectingConsts ++ [nDeclarator name init] })
@@ -289,13 +289,36 @@ theorem buildIife_rel {e1 e2 : List Node} (he : HintRelL e1 e2) {s1 s2 : St} (hs
 
 /-! ### children -/
 
+theorem slotProps_rel {sl1 sl2 : Option Node} (hsl : OptRel sl1 sl2) : HintRelL (slotProps sl1) (slotProps sl2) := by
+  rcases hsl.elim with ⟨h1, h2⟩ | ⟨x, y, h1, h2, hxy⟩
+  · subst h1 h2; exact .nil
+  · subst h1 h2
+    have hsp : HintRelL [nSpreadElement x] [nSpreadElement y] := .cons (rel_nSpreadElement hxy) .nil
+    rcases objLitParts_rel hxy with ⟨g1, g2⟩ | ⟨oas, las, p1, p2, g1, g2, hp⟩
+    · cases hxy with
+      | vnode => simpa [slotProps] using hsp
+      | node k as hl =>
+        cases k <;> try (simpa [slotProps] using hsp)
+        rcases hl with _ | ⟨q1, _ | ⟨q2, hl⟩⟩ <;> try (simpa [slotProps] using hsp)
+        cases q1 with
+        | vnode => simpa [slotProps] using hsp
+        | node k2 as2 hl2 =>
+          cases k2 <;> try (simpa [slotProps] using hsp)
+          simp [objLitParts] at g1
+    · cases hxy with
+      | vnode => simp [objLitParts] at g1
+      | node k as hl =>
+        cases k <;> try (simp [objLitParts] at g1; done)
+        rcases hl with _ | ⟨q1, _ | ⟨q2, hl⟩⟩ <;> try (simp [objLitParts] at g1; done)
+        cases q1 with
+        | vnode => simp [objLitParts] at g1
+        | node k2 as2 hl2 =>
+          cases k2 <;> try (simp [objLitParts] at g1; done)
+          simpa [slotProps] using hl2
+
 /-- the entries of the wrapped slots object before the reserved `_` entry -/
 def wrapBase (elems : List Node) (slots : Option Node) : List Node :=
-  let props := [nKV (nIdentName "default") (nArrow [] (nArray elems))]
-  match slots with
-  | some (.mk .object _ [.mk .list _ sp]) => props ++ sp
-  | some e => props ++ [nSpreadElement e]
-  | none => props
+  [nKV (nIdentName "default") (nArrow [] (nArray elems))] ++ slotProps slots
 
 def hintEntry (flag : Nat) : Node := nKV (nIdentName "_") (nNum flag)
 
@@ -308,36 +331,8 @@ theorem wrapChildren_eq (o : Opts) (elems : List Node) (flag : Nat) (slots : Opt
   rfl
 
 theorem wrapBase_rel {e1 e2 : List Node} (he : HintRelL e1 e2) {sl1 sl2 : Option Node} (hsl : OptRel sl1 sl2) :
-    HintRelL (wrapBase e1 sl1) (wrapBase e2 sl2) := by
-  have hd : HintRel (nKV (nIdentName "default") (nArrow [] (nArray e1))) (nKV (nIdentName "default") (nArrow [] (nArray e2))) :=
-    rel_nKV (HintRel.refl _) (rel_nArrow _ (rel_nArray he))
-  rcases hsl.elim with ⟨h1, h2⟩ | ⟨x, y, h1, h2, hxy⟩
-  · subst h1 h2; exact .cons hd .nil
-  · subst h1 h2
-    have hsp : HintRelL ([nKV (nIdentName "default") (nArrow [] (nArray e1))] ++ [nSpreadElement x])
-        ([nKV (nIdentName "default") (nArrow [] (nArray e2))] ++ [nSpreadElement y]) := .cons hd (.cons (rel_nSpreadElement hxy) .nil)
-    rcases objLitParts_rel hxy with ⟨g1, g2⟩ | ⟨oas, las, p1, p2, g1, g2, hp⟩
-    · cases hxy with
-      | vnode => simpa [wrapBase] using hsp
-      | node k as hl =>
-        cases k <;> try (simpa [wrapBase] using hsp)
-        rcases hl with _ | ⟨q1, _ | ⟨q2, hl⟩⟩ <;> try (simpa [wrapBase] using hsp)
-        cases q1 with
-        | vnode => simpa [wrapBase] using hsp
-        | node k2 as2 hl2 =>
-          cases k2 <;> try (simpa [wrapBase] using hsp)
-          simp [objLitParts] at g1
-    · cases hxy with
-      | vnode => simp [objLitParts] at g1
-      | node k as hl =>
-        cases k <;> try (simp [objLitParts] at g1; done)
-        rcases hl with _ | ⟨q1, _ | ⟨q2, hl⟩⟩ <;> try (simp [objLitParts] at g1; done)
-        cases q1 with
-        | vnode => simp [objLitParts] at g1
-        | node k2 as2 hl2 =>
-          cases k2 <;> try (simp [objLitParts] at g1; done)
-          simp only [wrapBase]
-          exact (HintRelL.cons hd .nil).append hl2
+    HintRelL (wrapBase e1 sl1) (wrapBase e2 sl2) :=
+  (HintRelL.cons (rel_nKV (HintRel.refl _) (rel_nArrow _ (rel_nArray he))) .nil).append (slotProps_rel hsl)
 
 theorem wrapKids_rel (o : Opts) {e1 e2 : List Node} (he : HintRelL e1 e2) (f1 f2 : Nat) {sl1 sl2 : Option Node} (hsl : OptRel sl1 sl2) :
     KidsRel (wrapChildren { o with optimize := true } e1 f1 sl1) (wrapChildren { o with optimize := false } e2 f2 sl2) := by
@@ -435,7 +430,7 @@ theorem finishChildren_rel (o : Opts) {e1 e2 : List Node} (he : HintRelL e1 e2) 
         have he12 : HintRel (Node.mk k2 as2 _) (Node.mk k2 as2 _) := .node k2 as2 hl2
         cases k2 <;> try (simp only [finishChildren]; exact hfall)
         · -- function expression
-          exact ⟨by simpa only [finishChildren] using KidsRel.same (rel_nObject (.cons (rel_nKV (HintRel.refl _) he12) .nil)),
+          exact ⟨by simpa only [finishChildren] using KidsRel.same (rel_nObject (.cons (rel_nKV (HintRel.refl _) he12) (slotProps_rel hsl))),
                  by simpa only [finishChildren] using hs⟩
         · -- identifier
           rw [finishChildren_ident, finishChildren_ident]
@@ -470,7 +465,7 @@ theorem finishChildren_rel (o : Opts) {e1 e2 : List Node} (he : HintRelL e1 e2) 
             cases k3 <;> try (simp only [finishChildren]; exact hfall)
             refine ⟨?_, by simpa only [finishChildren] using hs⟩
             simp only [finishChildren, if_true, Bool.false_eq_true, if_false]
-            exact KidsRel.slots _ _ hl3 (isHintEntry_hintEntry _)
+            exact KidsRel.slots _ _ (hl3.append (slotProps_rel hsl)) (isHintEntry_hintEntry _)
         · -- call
           rcases as2 with _ | ⟨syn, rest⟩
           · simp only [finishChildren]; exact hfall
@@ -508,7 +503,7 @@ theorem finishChildren_rel (o : Opts) {e1 e2 : List Node} (he : HintRelL e1 e2) 
                   exact KidsRel.cond _ _ _ (rel_nCall _ (.cons (rel_nArg (rel_nAssignParen (HintRel.refl _) he12)) .nil)) (HintRel.refl _)
                     (wrapBase_rel b1 hsl) (isHintEntry_hintEntry _)
         · -- arrow function
-          exact ⟨by simpa only [finishChildren] using KidsRel.same (rel_nObject (.cons (rel_nKV (HintRel.refl _) he12) .nil)),
+          exact ⟨by simpa only [finishChildren] using KidsRel.same (rel_nObject (.cons (rel_nKV (HintRel.refl _) he12) (slotProps_rel hsl))),
                  by simpa only [finishChildren] using hs⟩
   · simp only [finishChildren]; exact hfall
 
